@@ -13,8 +13,9 @@ $(MODEL)/ompl_model: $(COQ)/Extract.v $(wildcard $(COQ)/*Model.v) $(wildcard ext
 	cd $(COQ) && ( test -f Makefile || coq_makefile -f _CoqProject -o Makefile >/dev/null ) && timeout 3000 $(MAKE) -j16 $$(ls *Model.v | sed 's/\.v$$/.vo/')
 	cd $(MODEL) && coqc -Q $(CURDIR)/$(COQ) OmplV -o $(CURDIR)/$(MODEL)/Extract.vo $(CURDIR)/$(COQ)/Extract.v >/dev/null
 	cp extract/*.ml $(MODEL)/
-	cd $(MODEL) && ocamlfind ocamlopt -w -a -O2 model.mli model.ml $(addsuffix .ml,$(DRIVERS)) main.ml -o ompl_model 2>/dev/null || \
-	  (cd $(CURDIR)/$(MODEL) && ocamlfind ocamlopt -w -a model.mli model.ml $(addsuffix .ml,$(DRIVERS)) main.ml -o ompl_model)
+	cd $(MODEL) && ocamlfind ocamlopt -w -a -O2 model.mli model.ml $(addsuffix .ml,$(DRIVERS)) main.ml -o ompl_model.new 2>/dev/null || \
+	  (cd $(CURDIR)/$(MODEL) && ocamlfind ocamlopt -w -a model.mli model.ml $(addsuffix .ml,$(DRIVERS)) main.ml -o ompl_model.new)
+	mv -f $(MODEL)/ompl_model.new $(MODEL)/ompl_model
 ompl:
 	mkdir -p build
 	test -f build/ompl/build.ninja || cmake -G Ninja -S /repo -B build/ompl -DCMAKE_BUILD_TYPE=Release -DCMAKE_CXX_FLAGS="-O1 -ffp-contract=off -Wno-error -DOMPL_VERIF" -DOMPL_BUILD_TESTS=OFF -DOMPL_BUILD_DEMOS=OFF -DOMPL_BUILD_PYBINDINGS=OFF -DOMPL_BUILD_PYTESTS=OFF -DOMPL_REGISTRATION=OFF -DOMPL_VERSIONED_INSTALL=OFF > build/cmake.log 2>&1
